@@ -185,6 +185,18 @@ def check_learn(chk, rep, repo):
     fit_ev = [e for e in w.events if e.kind == "call" and e.name == "fit" and li.lid in e.loops]
     okfit = len(fit_ev) == 1 and fit_ev[0].args[:2] == (("param", "X_train"), ("param", "Y_train"))
     rep.fn("L3-refit", fn, "each iteration refits on the current training arrays", okfit, "self.fit(X_train, Y_train) expected")
+    # the forest's nodes hold views of the training rows: the snapshot must be taken while they still hold the rows the
+    # criterion was measured on, i.e. after this iteration's fit / criterion and before its exchange
+    snap_ev = [e for e in w.events if e.kind == "bind" and li.lid in e.loops and e.value[0] == "alloc"
+               and e.value[1] == "copy.deepcopy" and e.value[2] == (("self",),)]
+    exch = [e for e in stores if li.lid in e.loops]
+    for e in snap_ev:
+        late = [x for x in exch if x.seq < e.seq]
+        early = [x for x in fit_ev if x.seq > e.seq]
+        rep.ev("L3-snapshot-fresh", e, not late and not early,
+               "the deep copy is taken after this iteration's rows were exchanged (node features are views of X_train, so "
+               "the copied forest holds features of former validation samples)" if late else
+               "the deep copy is taken before this iteration's fit: it holds the previous iteration's forest")
     if len(snap) == 1:
         sname = next(iter(snap))
         inst = [e for e in w.events if e.kind == "call" and e.name == "update"
